@@ -68,7 +68,7 @@ impl Prop for C12 {
         "one case = (world, interleaved history of 2-4 clients over up to 8 iterators and 3 scanner handles) from (seed, run index); distinct = distinct hash of literal world+history (hence of the context-switch pattern and op-kind sequence); non-trivial = at least two live iterators with at least two context switches between them"
     }
     fn runs(&self) -> (u64, u64) {
-        (100_000, 2_500_000)
+        (150_000, 5_000_000)
     }
     fn expected_probes(&self) -> &'static [&'static str] {
         &[
